@@ -1,8 +1,41 @@
 (* Properties/C13.v — Sparse Merkle state persists completely in its node storage.
-   Only statements, each closed by `exact` of a lemma proved elsewhere, and its assumptions. *)
+   Only statements, each closed by `exact` of a lemma proved elsewhere, and its assumptions.
+   [persisted IF T m] (Merkle/SparseHistory.v): the tree object T holds the map m — its root
+   node is the node of the canonical compact tree of m and EVERY node of that tree is in T's
+   store under its digest with its (height, prefix, lo, hi) primitive.
+   Premises: the record [smt_iface] (Merkle/SparseTree.v, printed in Properties/C12.v),
+   which includes collision-freeness of the hash functions. *)
 From FV Require Import Base.Bytes Merkle.SparseSpec Merkle.SparseFun Merkle.SparseModel
-  Merkle.SparseProofs Merkle.SparseRefine Merkle.SparseInst.
+  Merkle.SparseProofs Merkle.SparseRefine Merkle.SparseTree Merkle.SparseHistory Merkle.SparseInst.
 Open Scope N_scope.
+
+(* The storage invariant is preserved by every insert, delete and reload, from any persisted
+   state (in particular the removal of stale nodes never removes a node still reachable), and
+   no operation fails. *)
+Theorem C13_inv_preserved :
+  forall (Dg : Type) (IF : smt_iface Dg) (ops : list (@l1op Dg)) (T : @tree Dg) (m : @smap Dg),
+    persisted IF T m -> Forall (l1op_wf IF) ops ->
+    exists T', l1_run IF T ops = Some T' /\ persisted IF T' (fold_left m_step (mops IF ops) m).
+Proof. exact @run_persisted. Qed.
+Print Assumptions C13_inv_preserved.
+
+(* Loading from the node storage at the current root returns the SAME tree object (root node
+   and store), hence the same proofs and the same results of all further operations. *)
+Theorem C13_reload_same :
+  forall (Dg : Type) (IF : smt_iface Dg) (T : @tree Dg) (m : @smap Dg),
+    persisted IF T m ->
+    tree_load (i_eqb IF) (i_zero IF) (i_hleaf IF) (i_hnode IF) (t_store T) (tree_root (i_zero IF) T) = Ok T.
+Proof. exact @reload_same. Qed.
+Print Assumptions C13_reload_same.
+
+(* A reload may be placed at every point of a history: the run with the reloads equals the
+   run without them. *)
+Theorem C13_reload_transparent :
+  forall (Dg : Type) (IF : smt_iface Dg) (ops : list (@l1op Dg)) (T : @tree Dg) (m : @smap Dg),
+    persisted IF T m -> Forall (l1op_wf IF) ops ->
+    l1_run IF T ops = l1_run IF T (filter (fun o => negb (is_load o)) ops).
+Proof. exact @reload_transparent. Qed.
+Print Assumptions C13_reload_transparent.
 
 (* Loading at the empty root yields the empty tree (whatever the storage holds). *)
 Theorem C13_load_empty :
@@ -24,5 +57,21 @@ Theorem C13_load_missing :
 Proof. exact @load_missing_root. Qed.
 Print Assumptions C13_load_missing.
 
-Example C13_premise_satisfiable : forall a b : lb, key_eqb a b = true <-> a = b.
-Proof. exact lb_eqb_spec. Qed.
+(* premises are satisfiable: an interface instance, the empty persisted tree, a wf history *)
+Example C13_premises_satisfiable :
+  persisted lb_iface (tree_new []) [] /\ Forall (l1op_wf lb_iface) lb_history /\
+  (forall a b : lb, key_eqb a b = true <-> a = b).
+Proof. exact (conj (persisted_empty lb_iface) (conj lb_history_wf lb_eqb_spec)). Qed.
+
+(* OPEN: the node list returned by nodes_from_set, inserted into an empty storage and loaded at
+   the returned root, is a persisted tree of the map the set denotes (exercised by the
+   correspondence run — OFromNodes histories — and by the harness oracle only). *)
+Definition C13_nodes_from_set_full_statement : Prop :=
+  forall (Dg : Type) (IF : smt_iface Dg) (kcmp : Dg -> Dg -> comparison),
+    (forall a b, kcmp a b = bits_compare (i_bits IF a) (i_bits IF b)) ->
+    forall (set : list (Dg * bytes)) (r : Dg) (nodes : list (Dg * @primitive Dg)),
+      Forall (fun e => length (i_bits IF (fst e)) = 256%nat) set ->
+      nodes_from_set (i_zero IF) (i_hleaf IF) (i_hnode IF) (i_sum IF) (i_kbit IF) (i_kcpl IF) kcmp set = Ok (r, nodes) ->
+      exists T, tree_load (i_eqb IF) (i_zero IF) (i_hleaf IF) (i_hnode IF)
+                          (fold_left (fun st e => sset (i_eqb IF) st (fst e) (snd e)) nodes []) r = Ok T /\
+                persisted IF T (map_of_list (map (fun e => (i_bits IF (fst e), i_sum IF (snd e))) set)).
